@@ -74,6 +74,31 @@ def main():
             except Exception as e:  # noqa: BLE001
                 outs += f"\n(junit unreadable: {e})"
             broken = sorted(t for t in stable if "spark" not in t and t not in passed)
+            if broken and len(broken) <= 40:
+                # the machine is shared: timing-sensitive tests (hypothesis deadlines, straggler
+                # tests) fail under load.  Re-run just those, alone; what passes then was a flake.
+                ids = []
+                for t in broken:
+                    cls, _, name = t.partition("::")
+                    parts = cls.split(".")
+                    for cut in range(len(parts), 0, -1):
+                        fp = os.path.join(wt, *parts[:cut]) + ".py"
+                        if os.path.exists(fp):
+                            ids.append("::".join([os.path.relpath(fp, wt)] + parts[cut:] + [name]))
+                            break
+                junit2 = os.path.join(SCRATCH, f"{sid}.rerun.junit.xml")
+                rcr, outr = run([PY, "-m", "pytest", "-q", "-p", "no:cacheprovider", "--timeout=900", f"--junitxml={junit2}"] + ids, wt, 3600)
+                try:
+                    for tc in ET.parse(junit2).iter("testcase"):
+                        if not list(tc):
+                            passed.add(tc.get("classname") + "::" + tc.get("name"))
+                except Exception as e:  # noqa: BLE001
+                    outr += f"\n(junit unreadable: {e})"
+                if os.path.exists(junit2):
+                    os.remove(junit2)
+                still = sorted(t for t in broken if t not in passed)
+                meta["ran"].append({"cmd": "pytest <the stable tests that did not pass in the full run, alone>   # patched tree", "exit": rcr, "first_run_not_passing": broken[:20], "still_not_passing": still[:20], "tail": outr[-300:]})
+                broken = still
             meta["ran"].append({"cmd": "pytest -q -p no:cacheprovider --timeout=900 -k 'not spark'   # patched tree", "exit": rcs, "tail": outs[-400:], "stable_tests_not_passing": broken[:20]})
             ok = ok and not broken
             if os.path.exists(junit):
@@ -89,6 +114,8 @@ def main():
                 shutil.copy(notes, os.path.join(d, "notes.md"))
             json.dump(meta, open(os.path.join(d, "meta.json"), "w"), indent=1)
         print(sid, meta["verdict"], "demo pristine/patched exit:", rc0, rc1)
+        if not ok:
+            print(json.dumps(meta["ran"][-2:], indent=1)[-3000:])
         return 0 if ok else 1
     finally:
         subprocess.run(["git", "-C", REPO, "worktree", "remove", "--force", wt])
